@@ -37,18 +37,21 @@ Record cmd := mkcmd {
   csave : option upd;      (* saves afterwards *)
   csize : N;               (* physical size of the document it saves *)
   cack : bool;             (* prints  Snapshot recorded  after a successful save *)
-  csnap : bool             (* passes the snap:after_load / snap:before_save points *)
+  csnap : bool;            (* passes the snap:after_load point *)
+  csnap2 : bool            (* passes the snap:before_save point (the snapshot command; not check's auto-snapshot) *)
 }.
 
-Definition cmd_snapshot (e : N) : cmd := mkcmd History true true false false (Some (UAppend e)) 0 true true.
+Definition cmd_snapshot (e : N) : cmd := mkcmd History true true false false (Some (UAppend e)) 0 true true true.
+(* check with trend.auto_snapshot_on_check: perform_auto_snapshot in check_snapshot.rs *)
+Definition cmd_auto_snapshot (e : N) : cmd := mkcmd History true true false false (Some (UAppend e)) 0 true true false.
 (* what the snapshot command was before the D15 repair: no update lock *)
-Definition cmd_snapshot_unlocked (e : N) : cmd := mkcmd History false true false false (Some (UAppend e)) 0 true true.
-Definition cmd_stats_history : cmd := mkcmd History false true false false None 0 false false.
+Definition cmd_snapshot_unlocked (e : N) : cmd := mkcmd History false true false false (Some (UAppend e)) 0 true true true.
+Definition cmd_stats_history : cmd := mkcmd History false true false false None 0 false false false.
 (* check --baseline F --update-baseline all: load_baseline_optional (missing -> none, unparsable -> exit 2),
    then a baseline built from this run's failures only *)
-Definition cmd_update_baseline (w : value) : cmd := mkcmd Baseline false true false true (Some (UConst w)) 0 false false.
-Definition cmd_check_baseline : cmd := mkcmd Baseline false true true true None 0 false false.
-Definition cmd_check_cache (w : value) : cmd := mkcmd Cache false true false false (Some (UUnion w)) 0 false false.
+Definition cmd_update_baseline (w : value) : cmd := mkcmd Baseline false true false true (Some (UConst w)) 0 false false false.
+Definition cmd_check_baseline : cmd := mkcmd Baseline false true true true None 0 false false false.
+Definition cmd_check_cache (w : value) : cmd := mkcmd Cache false true false false (Some (UUnion w)) 0 false false false.
 
 Inductive lpos := L0 | LS | LO | LL | LR.
 Inductive phase :=
@@ -194,7 +197,7 @@ Definition step_core (s : sys) (p : pid) : sres :=
         match csave (pcmd r) with
         | Some u =>
             let c := ser (apply_upd u (loaded r)) in
-            let r1 := emit_if (csnap (pcmd r)) (with_ph (with_w r (wst0 c (csize (pcmd r)))) PStart) "snap:before_save" in
+            let r1 := emit_if (csnap2 (pcmd r)) (with_ph (with_w r (wst0 c (csize (pcmd r)))) PStart) "snap:before_save" in
             Adv (mksys f (updp (procs s) p r1) (polls s) (c :: written s) (tgts s) (vers s))
         | None => Adv (setp s p (finish r true))
         end
